@@ -231,7 +231,8 @@ class Check:
         if self.work.exists():
             shutil.rmtree(self.work, ignore_errors=True)
         self.work.mkdir(parents=True)
-        shutil.rmtree(VERIF / "replays" / pid, ignore_errors=True)
+        if not os.environ.get("VERIF_REPLAY"):
+            shutil.rmtree(VERIF / "replays" / pid, ignore_errors=True)
         self.violations: List[Dict[str, Any]] = []
         self.cov: Dict[str, Any] = {
             "evaluations": 0,
@@ -249,6 +250,14 @@ class Check:
     @property
     def quick(self) -> bool:
         return self.tier == "quick"
+
+    @property
+    def replay_case(self) -> Any:
+        """The abstract case stored in the replay file given by --replay (env VERIF_REPLAY), or None."""
+        p = os.environ.get("VERIF_REPLAY")
+        if not p:
+            return None
+        return json.loads(pathlib.Path(p).read_text())["case"]
 
     # -- TLC -------------------------------------------------------------------------------
     def tlc(self, module: str, cfg: Optional[str] = None, *, what: str = "", count: bool = True, must_pass: bool = True, **kw: Any) -> TlcResult:
